@@ -40,7 +40,12 @@ func Arithm(cfg *Config, expr syntax.ArithmExpr) (int, error) {
 	case *syntax.UnaryArithm:
 		switch expr.Op {
 		case syntax.Inc, syntax.Dec:
-			name := expr.X.(*syntax.Word).Lit()
+			word, ok := expr.X.(*syntax.Word)
+			if !ok {
+				// e.g. "++x++", which parses with "x++" as the operand of the prefix "++"
+				return 0, fmt.Errorf("assignment requires lvalue")
+			}
+			name := word.Lit()
 			old := atoi(cfg.envGet(name))
 			val := old
 			if expr.Op == syntax.Inc {
